@@ -227,6 +227,36 @@ CONFIGS = {
 }
 
 
+# ---- overrides used by the configuration-matrix check (C15): every family collect() then runs the given
+# configurations on a scaled-down case set
+CFG_OVERRIDE = None
+SCALE = 1.0
+
+
+def pick_configs(default):
+    import common as _c
+    return list(_c.CFG_OVERRIDE) if _c.CFG_OVERRIDE else default
+
+
+def scaled(n):
+    import common as _c
+    return max(1, int(n * _c.SCALE))
+
+
+def is_scaled():
+    import common as _c
+    return _c.SCALE < 1.0
+
+
+def matrix_config(comp, std, emu, opt, dbg, paren):
+    """register (idempotently) and return the name of one cell of the configuration matrix"""
+    stdflag = {"14": "-std=c++14 -Wno-c++17-extensions", "17": "-std=c++17", "20": "-std=c++20", "23": "-std=c++23" if comp == "g++" else "-std=c++2b"}[std]
+    name = "mx-%s%s%s-%s-%s%s" % ("gcc" if comp == "g++" else "clang", std, "-emu" if emu else "", opt, "dbg" if dbg else "ndebug", "-paren" if paren else "")
+    flags = "%s -%s %s%s%s" % (stdflag, opt, "-UNDEBUG -D_MDSPAN_DEBUG" if dbg else "-DNDEBUG", (" " + HOOK_FLAG) if emu else "", " -DMDSPAN_USE_PAREN_OPERATOR=1" if paren else "")
+    CONFIGS[name] = (comp, flags)
+    return name
+
+
 def compile_cpp(name, src_text, config, extra=""):
     """compile a generated TU against /repo/include (current working tree); cached by content hash.
     returns (exe|None, log)"""
